@@ -2,7 +2,7 @@
 # matrix.sh [mutant ids...]: runs every seeded mutant against the quick check of its property (and the
 # related checks listed below), records CAUGHT/MISSED in seeded/RESULTS.txt and in each meta.json.
 cd "$(dirname "$0")/.."
-declare -A EXTRA=( [C01A]="C09" [C01B]="C05" [C02A]="C03" [C02B]="C09 C01" [C03A]="C02" [C04B]="C01" [C05A]="C18" [C05B]="C11" [C06A]="C08" [C08A]="C06" [C11A]="C05" [C12B]="C01" [C16B]="" [C18B]="C05" [C13A]="C14" [C03C]="C01" [C03D]="C02 C01" [C04C]="C05" [C04D]="C17" [C13C]="C14" [C13D]="" [C17C]="C19" [C17D]="C19" [C19D]="C17" [C01D]="C02" [C08C]="C10" [C02F]="C10 C08" [C05E]="C19" [C06F]="C01" [C11E]="C05" [C12E]="C01" [C12F]="C01" [C01E]="C09" [C03E]="C04" [C03F]="C04" [C04E]="C01" [C04F]="C01" [C13F]="C14" [C17E]="C19" [C19F]="C17" [C14A]="C13" [C05G]="C11" [C05H]="C19" )
+declare -A EXTRA=( [C01A]="C09" [C01B]="C05" [C02A]="C03" [C02B]="C09 C01" [C03A]="C02" [C04B]="C01" [C05A]="C18" [C05B]="C11" [C06A]="C08" [C08A]="C06" [C11A]="C05" [C12B]="C01" [C16B]="" [C18B]="C05" [C13A]="C14" [C03C]="C01" [C03D]="C02 C01" [C04C]="C05" [C04D]="C17" [C13C]="C14" [C13D]="" [C17C]="C19" [C17D]="C19" [C19D]="C17" [C01D]="C02" [C08C]="C10" [C02F]="C10 C08" [C05E]="C19" [C06F]="C01" [C11E]="C05" [C12E]="C01" [C12F]="C01" [C01E]="C09" [C03E]="C04" [C03F]="C04" [C04E]="C01" [C04F]="C01" [C13F]="C14" [C17E]="C19" [C19F]="C17" [C14A]="C13" [C05G]="C11" [C05H]="C19" [C06G]="C01 C08" [C13H]="C14 C08" [C14G]="C15" [C03G]="C01" )
 ids=${@:-$(ls seeded | grep -v RESULTS)}
 for id in $ids; do
   d=seeded/$id; [ -f $d/patch.diff ] || continue
